@@ -3,7 +3,10 @@
 package motion
 
 import (
+	"bytes"
 	"fmt"
+	"log"
+	"strings"
 
 	zz "github.com/TheCacophonyProject/thermal-recorder/zzverif"
 
@@ -432,4 +435,61 @@ func runAFault(r *verifsim.Run) {
 		r.Nontrivial(fmt.Sprintf("cont%v:cap%d:min%d:max%d:%s", c.Cont, p.Cap, p.MinF, p.MaxF, evString(sc.Ev[:prefix])))
 	}
 	r.Distinct("c12.ops", fmt.Sprintf("m%d/%d/%d c%d/%d/%d t%d/%d/%d", counts[0]['S'], counts[0]['W'], counts[0]['X'], counts[1]['S'], counts[1]['W'], counts[1]['X'], counts[2]['S'], counts[2]['W'], counts[2]['X']))
+}
+
+// ---- unit A.logtext : C20 (messages reach the log unmodified, also when they look like formats) ----
+
+func runALogText(r *verifsim.Run) {
+	sc := genRecScenario(r, "C12")
+	sc.Cfg.Cont = true
+	sc.Plans = [3]zz.FaultPlan{}
+	for i, k := 0, r.Range(2, 8); i < k; i++ {
+		s := r.Draw(3)
+		sc.Plans[s].Add([]byte{'S', 'X', 'W'}[r.Draw(3)], r.Draw(10))
+	}
+	for i := range sc.Ev {
+		if r.Chance(1, 30) {
+			sc.Ev[i].CreateOK = false // "Can't start recording file: <error text>"
+		}
+		if r.Chance(1, 30) {
+			sc.Ev[i].DiskOK = false // "Recording not started: <error text>"
+		}
+	}
+	describe(r, sc)
+	var buf bytes.Buffer
+	old := log.Writer()
+	log.SetOutput(&buf)
+	log.SetFlags(0)
+	defer func() { log.SetOutput(old) }()
+	w, tr := runScenario(sc, aOpts{SkipEv: -1})
+	log.SetOutput(old)
+	countFaults(r, w)
+	for i := range tr.Ev {
+		if tr.Ev[i].Panic != "" {
+			r.Violate("C12", "C12.panic", "process", "panic: %s", tr.Ev[i].Panic)
+			return
+		}
+	}
+	nErr := 0
+	for _, line := range strings.Split(buf.String(), "\n") {
+		if line == "" {
+			continue
+		}
+		if strings.Contains(line, "%!") {
+			r.Violate("C20", "C20.print", "modified:format-applied-twice", "a message was not printed unmodified: the log holds %q (the error text is %q)", line, zz.ErrInjected.Error())
+			return
+		}
+		if strings.Contains(line, "injected sink fault") {
+			nErr++
+			if !strings.HasSuffix(line, zz.ErrInjected.Error()) {
+				r.Violate("C20", "C20.print", "modified:error-text", "a message carrying an error text was altered: %q does not end with %q", line, zz.ErrInjected.Error())
+				return
+			}
+		}
+	}
+	if nErr >= 2 {
+		r.Nontrivial(fmt.Sprintf("%d:%s", nErr, evString(sc.Ev)))
+		r.Probe("error-text-with-percent-signs-logged")
+	}
+	r.Count("log_lines_with_error_text", nErr)
 }
